@@ -166,9 +166,63 @@ pub fn cmd_sat(a: &Args) {
             jobs.push((b.clone(), ops.clone()));
         }
     }
+    // large random 3-CNF histories (40-160 variables, around the satisfiability threshold, multi-line models): TLC checks that
+    // every model satisfies the clauses and assumptions; "unsat" is cross-checked between the backends (pair events)
+    let bigwalks = a.num("bigwalks", 0);
+    let mut bigjobs: Vec<Vec<SOp>> = vec![];
+    for _ in 0..bigwalks {
+        let nv = rng.gen_range(40..=160) as isize;
+        let mut ops = vec![];
+        let target = (nv as f64 * rng.gen_range(3.6..4.6)) as usize;
+        let mut added = 0usize;
+        while added < target {
+            let burst = rng.gen_range(5..40);
+            for _ in 0..burst {
+                let mut c: Vec<isize> = vec![];
+                while c.len() < 3 {
+                    let v = rng.gen_range(1..=nv);
+                    if !c.contains(&v) && !c.contains(&-v) {
+                        c.push(if rng.gen_bool(0.5) { v } else { -v });
+                    }
+                }
+                ops.push(SOp::Add(c));
+                added += 1;
+            }
+            let k = rng.gen_range(0..4);
+            let mut asm: Vec<isize> = vec![];
+            for _ in 0..k {
+                let v = rng.gen_range(1..=nv + 2);
+                if !asm.contains(&v) && !asm.contains(&-v) {
+                    asm.push(if rng.gen_bool(0.5) { v } else { -v });
+                }
+            }
+            ops.push(SOp::Solve(asm));
+        }
+        ops.push(SOp::Solve(vec![]));
+        bigjobs.push(ops);
+    }
+    let bigres = util::par_map(bigjobs, threads, |ops| {
+        util::install_quiet_panic_hook();
+        let runs: Vec<Vec<String>> = backends.iter().map(|b| run(b, ops)).collect();
+        // pair events: the verdicts of the backends on the same call
+        let mut lines: Vec<String> = vec![];
+        let verdicts: Vec<Vec<String>> = runs.iter().map(|r| r.iter().filter_map(|l| {
+            let v: Value = serde_json::from_str(l).unwrap();
+            if v["ev"] == "solve" { Some(v["res"].as_str().unwrap().to_string()) } else { None }
+        }).collect()).collect();
+        for r in &runs {
+            lines.extend(r.iter().cloned());
+        }
+        lines.push(json!({"ev": "reset", "backend": "pairs"}).to_string());
+        for i in 0..verdicts[0].len() {
+            let vs: Vec<&String> = verdicts.iter().map(|v| &v[i]).collect();
+            lines.push(json!({"ev": "pair", "call": i, "backends": backends, "verdicts": vs}).to_string());
+        }
+        lines
+    });
     let res = util::par_map(jobs, threads, |(b, ops)| {
         util::install_quiet_panic_hook();
         run(b, ops)
     });
-    util::write_lines(&out, res.into_iter().flatten());
+    util::write_lines(&out, res.into_iter().flatten().chain(bigres.into_iter().flatten()));
 }
